@@ -130,6 +130,10 @@ def check(ctx):
             n_memo += check_memo_keys(ctx, fi_)
     ctx.ok('R-MEMO/key-complete', 'election and taxonomy modules',
            'package', f'{n_memo} memo table(s) judged', nontrivial=False)
+    # how a cell is normalised is what the caller declared, not something
+    # decided from a statistic of the whole file (R-FWD/setting-not-rebound)
+    from ..rules.forwarding import check_forwarding
+    check_forwarding(ctx, {'normalization'})
 
 
 def check_cell_selection(ctx):
